@@ -203,9 +203,22 @@ def core_in_sync(ctx: Ctx):
     res.instance("CORE-IN-SYNC", qname, sample={"projections": [src(s)[:90] for s in proj], "states": ex.states})
     if not proj:
         raise AnalysisError("CORE-IN-SYNC: partial_tucker no longer computes core = multi_mode_dot(...)")
+    # names that hold the data (the parameter itself, or a local every definition of which is the data
+    # or is computed from it: `data = tensor`, `data = impute(data, core, factors)`)
+    data_names = {row["data"]}
+    changed = True
+    while changed:
+        changed = False
+        for st in own_scope_nodes(f.node):
+            if isinstance(st, ast.Assign) and len(st.targets) == 1 and isinstance(st.targets[0], ast.Name) and st.targets[0].id not in data_names:
+                nm = st.targets[0].id
+                dfs = [x.value for x in own_scope_nodes(f.node) if isinstance(x, ast.Assign) and any(is_name(t, nm) for t in x.targets)]
+                if nm not in ("core", "factors") and all(any(isinstance(n, ast.Name) and n.id in data_names | {nm} for n in ast.walk(d)) for d in dfs) and any(any(isinstance(n, ast.Name) and n.id in data_names for n in ast.walk(d)) for d in dfs):
+                    data_names.add(nm)
+                    changed = True
     for s in proj:
         v = s.value
-        ok = v.args and isinstance(v.args[0], ast.Name) and v.args[0].id == row["data"] and len(v.args) > 1 and isinstance(v.args[1], ast.Name) and v.args[1].id == "factors" and any(k.arg == "transpose" and isinstance(k.value, ast.Constant) and k.value.value is True for k in v.keywords) and any(k.arg == "modes" and isinstance(k.value, ast.Name) and k.value.id == "modes" for k in v.keywords)
+        ok = v.args and isinstance(v.args[0], ast.Name) and v.args[0].id in data_names and len(v.args) > 1 and isinstance(v.args[1], ast.Name) and v.args[1].id == "factors" and any(k.arg == "transpose" and isinstance(k.value, ast.Constant) and k.value.value is True for k in v.keywords) and any(k.arg == "modes" and isinstance(k.value, ast.Name) and k.value.id == "modes" for k in v.keywords)
         if s.lineno > _loop_line(f) and not ok:
             ctx.finding("CORE-IN-SYNC", f, s, "the core is not computed as multi_mode_dot(tensor, factors, modes=modes, transpose=True): it is not the projection of the data onto the factors")
     for v in ex.violations.values():
